@@ -194,4 +194,105 @@ theorem potU_le (B : Nat) (c : UCfg ρ σ) (h : InvU B c) : potU c ≤ c.ws.leng
   intro w hw
   exact Nat.le_trans (addsBefore_le _) (h w hw).1
 
+/-- a property of workers that survives performing an action, taking the next unit and leaving a unit / the loop holds for
+every worker after any step -/
+theorem stepU_all (Q : UWorker ρ → Prop) (htail : ∀ a l rest, Q ⟨a :: l, rest⟩ → Q ⟨l, rest⟩)
+    (hload : ∀ u us, Q ⟨[], u :: us⟩ → Q ⟨u, us⟩) (hdrop : ∀ cur rest, Q ⟨cur, rest⟩ → Q ⟨[], rest⟩) (hnil : Q ⟨[], []⟩)
+    (leaves : Bool) (add : σ → ρ → σ) (enough : σ → Bool) (c : UCfg ρ σ) (h : ∀ w ∈ c.ws, Q w) (w : Nat) (st ab : Bool) :
+    ∀ x ∈ (stepU leaves add enough c w st ab).ws, Q x := by
+  have key : ∀ (old new : UWorker ρ), c.ws[w]? = some old → Q new → ∀ x ∈ c.ws.set w new, Q x := by
+    intro old new _ hn x hx
+    rcases List.mem_or_eq_of_mem_set hx with hx | hx
+    · exact h x hx
+    · subst hx; exact hn
+  unfold stepU
+  split
+  · exact h
+  · exact h
+  · rename_i u us hw
+    exact key _ _ hw (hload u us (h _ (List.mem_of_getElem? hw)))
+  · rename_i l rest hw
+    have hq := h _ (List.mem_of_getElem? hw)
+    split
+    · cases leaves
+      · exact key _ _ hw (hdrop _ _ hq)
+      · exact key _ _ hw hnil
+    · split
+      · exact key _ _ hw hnil
+      · exact key _ _ hw (htail _ _ _ hq)
+  · rename_i l rest hw
+    have hq := h _ (List.mem_of_getElem? hw)
+    split
+    · exact key _ _ hw hnil
+    · exact key _ _ hw (htail _ _ _ hq)
+  · rename_i r l rest hw
+    exact key _ _ hw (htail _ _ _ (h _ (List.mem_of_getElem? hw)))
+  · rename_i l rest hw
+    exact key _ _ hw (htail _ _ _ (h _ (List.mem_of_getElem? hw)))
+
+/-- the store stays the replay of the log; what enters the log was pending in some worker's current unit -/
+theorem stepU_log (leaves : Bool) (add : σ → ρ → σ) (enough : σ → Bool) (s0 : σ) (c : UCfg ρ σ)
+    (h : c.store = c.log.foldl add s0) (w : Nat) (st ab : Bool) :
+    (stepU leaves add enough c w st ab).store = (stepU leaves add enough c w st ab).log.foldl add s0 ∧
+    ∀ r ∈ (stepU leaves add enough c w st ab).log, r ∈ c.log ∨ ∃ x ∈ c.ws, r ∈ pendingAdds x.cur := by
+  unfold stepU
+  split
+  · exact ⟨h, fun r hr => Or.inl hr⟩
+  · exact ⟨h, fun r hr => Or.inl hr⟩
+  · exact ⟨h, fun r hr => Or.inl hr⟩
+  · split
+    · exact ⟨h, fun r hr => Or.inl hr⟩
+    · split <;> exact ⟨h, fun r hr => Or.inl hr⟩
+  · split <;> exact ⟨h, fun r hr => Or.inl hr⟩
+  · rename_i r l rest hw
+    refine ⟨by simp [List.foldl_append, h], ?_⟩
+    intro x hx
+    simp only [List.mem_append, List.mem_singleton] at hx
+    rcases hx with hx | hx
+    · exact Or.inl hx
+    · subst hx
+      exact Or.inr ⟨_, List.mem_of_getElem? hw, by simp [pendingAdds]⟩
+  · exact ⟨h, fun r hr => Or.inl hr⟩
+
+/-- everything a worker may still add has the property `G` -/
+def PendU (G : ρ → Prop) (x : UWorker ρ) : Prop :=
+  (∀ r ∈ pendingAdds x.cur, G r) ∧ ∀ u ∈ x.rest, ∀ r ∈ pendingAdds u, G r
+
+theorem runU_spec (leaves : Bool) (add : σ → ρ → σ) (enough : σ → Bool) (s0 : σ) (G : ρ → Prop) :
+    ∀ (sched : List (Nat × Bool × Bool)) (c : UCfg ρ σ), c.store = c.log.foldl add s0 → (∀ r ∈ c.log, G r) →
+      (∀ x ∈ c.ws, PendU G x) →
+      let c' := runU leaves add enough c sched
+      c'.store = c'.log.foldl add s0 ∧ ∀ r ∈ c'.log, G r := by
+  intro sched
+  induction sched with
+  | nil => intro c h1 h2 _; exact ⟨h1, h2⟩
+  | cons a sched ih =>
+    intro c h1 h2 h3
+    obtain ⟨w, st, ab⟩ := a
+    obtain ⟨l1, l2⟩ := stepU_log leaves add enough s0 c h1 w st ab
+    have h3' := stepU_all (PendU G)
+      (by
+        intro a l rest hq
+        refine ⟨fun r hr => hq.1 r ?_, hq.2⟩
+        cases a <;> simp [pendingAdds, hr])
+      (by
+        intro u us hq
+        exact ⟨fun r hr => hq.2 u List.mem_cons_self r hr, fun v hv => hq.2 v (List.mem_cons_of_mem _ hv)⟩)
+      (by intro cur rest hq; exact ⟨by simp [pendingAdds], hq.2⟩)
+      ⟨by simp [pendingAdds], by simp⟩ leaves add enough c h3 w st ab
+    refine ih _ l1 ?_ h3'
+    intro r hr
+    rcases l2 r hr with hr | ⟨x, hx, hrx⟩
+    · exact h2 r hr
+    · exact (h3 x hx).1 r hrx
+
+theorem foldl_inv (add : σ → ρ → σ) (Inv : σ → Prop) (Good : ρ → Prop) (hadd : ∀ s r, Inv s → Good r → Inv (add s r)) :
+    ∀ (l : List ρ) (s : σ), Inv s → (∀ r ∈ l, Good r) → Inv (l.foldl add s) := by
+  intro l
+  induction l with
+  | nil => intro s h _; exact h
+  | cons x xs ih =>
+    intro s h hg
+    exact ih _ (hadd s x h (hg x List.mem_cons_self)) (fun r hr => hg r (List.mem_cons_of_mem _ hr))
+
 end Ymq.Sched
